@@ -79,7 +79,7 @@ def class_key(r, f, plaus):
         return {'clause': cl, 'syn': r['syn'], 'field': f['why'].split(':')[-1] if ':' in f['why'] else '', 'value': imm_value(ins)}
     if cl == 'C02.reg':
         return {'clause': cl, 'shape': ','.join(o['c'] if o['k'] == 'reg' else o['k'] for o in ins['ops'])}
-    return {'clause': cl, 'mn': ins['mn'], 'shape': asmlib.shape(ins), 'row': row_name(f['row'])}
+    return {'clause': cl, 'mn': ins['mn'], 'shape': ','.join(asmlib.op_shape(o).split('[')[0] for o in ins['ops'])}
 
 
 def report(chk, recs, verdicts):
